@@ -64,6 +64,7 @@ fn class_base(level: usize, target: usize, kind: Kind) -> usize {
 /// Per-process allocator of never-hit copies.
 pub struct Fresh {
     next: Vec<AtomicUsize>,
+    next_xp: Vec<AtomicUsize>,
 }
 impl Default for Fresh {
     fn default() -> Self {
@@ -74,6 +75,7 @@ impl Fresh {
     pub fn new() -> Self {
         Fresh {
             next: (0..5 * 4 * 3).map(|_| AtomicUsize::new(0)).collect(),
+            next_xp: (0..5 * 4).map(|_| AtomicUsize::new(0)).collect(),
         }
     }
     /// next unused copy of the class, or None when the class is exhausted
@@ -82,6 +84,17 @@ impl Fresh {
         let n = self.next[base / COPIES].fetch_add(1, Ordering::Relaxed);
         if n < COPIES {
             Some(&POOL[base + n])
+        } else {
+            None
+        }
+    }
+    /// next unused copy of a span callsite written `span!(parent: None, ..)` (explicit-parent arm
+    /// of the macro; `idx` continues after the main pool)
+    pub fn take_root_span(&self, level: usize, target: usize) -> Option<&'static Cs> {
+        let class = (level - 1) * 4 + target;
+        let n = self.next_xp[class].fetch_add(1, Ordering::Relaxed);
+        if n < XP_COPIES {
+            Some(&POOL_XP[class * XP_COPIES + n])
         } else {
             None
         }
